@@ -62,7 +62,15 @@ def run_case(k):
     if c['cls'] == 'Derivative' and c['dim'] == 1:
         x = x[0]
     f = make_f(c)
-    out, detail = classify(lambda: getattr(nd, c['cls'])(f, **kw)(x))
+    def build_and_call():
+        if c['via'] == 'setter':
+            kw2 = dict(kw, method='forward' if c['m'] != 'forward' else 'central')
+            obj = getattr(nd, c['cls'])(f, **kw2)
+            obj.method = c['m']
+        else:
+            obj = getattr(nd, c['cls'])(f, **kw)
+        return obj(x)
+    out, detail = classify(build_and_call)
     if out == 'Return':
         detail = repr(np.asarray(detail[0] if c['full'] else detail).ravel()[:3])
     return out, detail
